@@ -240,6 +240,16 @@ class Check(PropertyCheck):
                     V("removal", "operand %r changed or removed although -c/-t was given" % op)
                 continue
             q_is_dir = q in names and names[q][0] == "L" and inodes[names[q][1]]["kind"] == "d"
+
+            def leads_to(p, depth=0):
+                x = names.get(p)
+                if x is None or depth > 40:
+                    return None
+                return x[1] if x[0] == "L" else leads_to(x[1], depth + 1)
+            if force and q in names and leads_to(q) == e[1]:
+                # -f and the output name leads to the input file itself: the unrepaired source replaces it, the repaired
+                # source (notes/fix_F5_force_symlink.diff) skips the operand; the property text does not say which
+                continue
             if (q in names and not force) or q_is_dir or q == "" or q.endswith("/"):
                 skipped_expected += 1
                 continue
